@@ -161,16 +161,21 @@ def ref_gcp(x, g, lb, ub, B):
     crossed = 0
     fpp_first = None
     last = dict(fpp=None, dt=0.0, dmax=0.0)
+    knife = False  # a stop-or-continue decision taken within 1e-9 (relative) of its threshold
     for tb in bps + [np.inf]:
         fp = float(g @ d + d @ (B @ z))
         fpp = float(d @ (B @ d))
         if fpp_first is None:
             fpp_first = fpp
+        if np.any(d != 0) and abs(fp) <= 1e-9 * (abs(float(g @ d)) + abs(float(d @ (B @ z)))):
+            knife = True
         if fp >= 0 or not np.any(d != 0):
             tstar = told
             last = dict(fpp=fpp, dt=0.0, dmax=float(np.max(np.abs(d))) if d.size else 0.0)
             break
         dtmin = -fp / fpp if fpp > 0 else np.inf
+        if np.isfinite(tb) and np.isfinite(dtmin) and abs(dtmin - (tb - told)) <= 1e-9 * max(dtmin, tb - told):
+            knife = True
         if dtmin < tb - told:
             z = z + dtmin * d
             tstar = told + dtmin
@@ -206,7 +211,7 @@ def ref_gcp(x, g, lb, ub, B):
         amp = EPS * ((fpp_first or 0.0) / last["fpp"] * abs(last["dt"]) + accum / last["fpp"]) * last["dmax"]
     else:
         amp = 0.0
-    return dict(xcp=xcp, z=z, tstar=tstar, t=t, pinned=pinned, near=near, crossed=crossed, cancellation=amp)
+    return dict(xcp=xcp, z=z, tstar=tstar, t=t, pinned=pinned, near=near, crossed=crossed, cancellation=amp, knife=knife)
 
 
 def ref_subspace(x, xc, g, lb, ub, B):
